@@ -65,4 +65,11 @@ CHECKS = {
         quick=dict(groups=[G("roster", "^TestC14Roster$", 40, 6), G("signatures", "^TestC14Signatures$", 150, 8)]),
         thorough=dict(groups=[G("roster", "^TestC14Roster$", 400, 8), G("signatures", "^TestC14Signatures$", 3000, 8)]),
     ),
+    "C20": dict(
+        title="Epoch-keyed, per-owner and configuration stores return exactly what was put",
+        quick=dict(groups=[G("reputation", "^TestC20Reputation$", 100, 3), G("audit", "^TestC20Audit$", 60, 3), G("neofsid", "^TestC20NeoFSID$", 150, 2),
+                           G("config", "^TestC20Config$", 150, 3), G("estimations", "^TestC20Estimations$", 80, 5)]),
+        thorough=dict(groups=[G("reputation", "^TestC20Reputation$", 1500, 3), G("audit", "^TestC20Audit$", 1000, 3), G("neofsid", "^TestC20NeoFSID$", 2000, 2),
+                              G("config", "^TestC20Config$", 2000, 3), G("estimations", "^TestC20Estimations$", 1500, 5)]),
+    ),
 }
